@@ -305,7 +305,7 @@ class pyBQM:
 
         for submap in iter_safe_relabels(mapping, self.variables):
             for old, new in submap.items():
-                if old == new:
+                if old == new or old not in adj:
                     continue
 
                 # replace the linear bias
